@@ -4,10 +4,16 @@ From Coq Require Import List NArith Bool.
 Import ListNotations.
 Open Scope N_scope.
 
-(* exempt entry: (field, true = every access | false = reads only) *)
-Definition field_exempt (ex : list (N * bool)) (f : N) (is_read : bool) : bool :=
-  existsb (fun e => (fst e =? f) && (snd e || is_read)) ex.
+(* access kinds: 0 read, 1 address taken, 2 write.
+   exempt entry (field, level): accesses of kind <= level are exempt
+   (0 immutable after construction; 1 also pointer-receiver getters; 2 self-synchronised) *)
+Definition field_exempt (ex : list (N * N)) (f : N) (kind : N) : bool :=
+  existsb (fun e => (fst e =? f) && (kind <=? snd e)) ex.
 
-(* accesses (field, is_read) reachable without the guarding mutex that the whitelist does not cover *)
-Definition field_violations (ex : list (N * bool)) (acc : list (N * bool)) : list (N * bool) :=
+(* accesses (field, kind) reachable without the guarding mutex that the whitelist does not cover *)
+Definition field_violations (ex : list (N * N)) (acc : list (N * N)) : list (N * N) :=
   filter (fun a => negb (field_exempt ex (fst a) (snd a))) acc.
+
+(* every mutex class is accounted for: it guards at least one field, or is listed as guarding none *)
+Definition classes_covered (all : list N) (guarded_by : list (N * N)) (none : list N) : bool :=
+  forallb (fun c => existsb (fun g => snd g =? c) guarded_by || existsb (N.eqb c) none) all.
